@@ -579,7 +579,9 @@ func Check(p Plan) *kit.Violation {
 
 	ctx := context.Context(nil)
 	var cancels []context.CancelFunc
+	var ctxBorn time.Time
 	if p.CtxMs > 0 {
+		ctxBorn = time.Now()
 		c, cf := context.WithTimeout(context.Background(), time.Duration(p.CtxMs)*time.Millisecond)
 		ctx = c
 		cancels = append(cancels, cf)
@@ -636,6 +638,12 @@ func Check(p Plan) *kit.Violation {
 		return kit.Failf("HANG: Submit did not return within %v (effective deadline %d ms)", watchdog, dl)
 	}
 	elapsed := time.Since(start)
+	// the caller's context deadline runs from when the context was made, which on a busy machine can be many milliseconds
+	// before Submit was entered (seen in round 10 at a load average of 80: 13 ms): "no deadline was near" counts from there
+	var ctxLead time.Duration
+	if !ctxBorn.IsZero() {
+		ctxLead = start.Sub(ctxBorn)
+	}
 	if out.panic != nil {
 		return out.panic
 	}
@@ -718,7 +726,7 @@ func Check(p Plan) *kit.Violation {
 		// the only end the body has seen is the end of the request context, although the caller never cancelled and no
 		// deadline was near: the client ended the context itself before it drained the body (a real transport then
 		// gives up the connection)
-		if p.Reuse && endByCtx && posAtClose < len(body.data) && p.CancelAt == "" && (dl == 0 || elapsed < time.Duration(dl)*time.Millisecond/2) {
+		if p.Reuse && endByCtx && posAtClose < len(body.data) && p.CancelAt == "" && (dl == 0 || elapsed+ctxLead < time.Duration(dl)*time.Millisecond/2) {
 			return kit.Failf("NOT-DRAINED: connection reuse is enabled; the request context was ended by the client before the response body was drained (closed at offset %d of %d; caller never cancelled, deadline %d ms, elapsed %v)", posAtClose, len(body.data), dl, elapsed)
 		}
 	}
